@@ -38,14 +38,14 @@ META = {
                "parsing": "the real from_polyco on a token stream: layouts (entries x NCOEFF x span) 1x2x60, 1x4x60 quick; + 1x3x30, "
                           "2x2x60, 2x3x60 thorough (NCOEFF >= 5 with symbolic coefficients is not decided reliably); TMID, RPHASE (integer <= 1e12 and six decimals), F0, every coefficient "
                           "symbolic; then __call__ / f0 at a symbolic time against the tempo formula on the symbolic numbers",
-               "array_times": "__call__ / f0 on a 1-D array of 2 or 3 independent symbolic times (any order, same or different entries, inside or "
+               "array_times": "__call__ / f0 on a 1-D array of 2 or 3, or a 2 x 2 (3 x 1, 1 x 3) array of independent symbolic times (any order, same or different entries, inside or "
                               "outside the spans); texts gap, odd (quick: n=2 all, n=3 odd-call and gap-f0), + timing n=2 and the other n=3 (thorough)",
                "evaluation": "three concrete polyco texts (the repository's timing.dat; a two-entry text with a gap; a generated text with "
                              "ncoeff not a multiple of 3, D exponents, signed coefficients), every entry, time symbolic over and beyond the spans"},
     "assumptions": ["exact real time and Horner arithmetic; coefficients are the doubles the real parser produced, compared with the exact "
                     "decimals of the text"],
     "outside": ["polyco texts outside the layouts listed (more than two entries with symbolic numbers, blank lines, NCOEFF = 1)", "time_at (SciPy root finder)",
-                "float round-off of Horner evaluation and of Time differences", "arrays of more than 3 times or more than one dimension"],
+                "float round-off of Horner evaluation and of Time differences", "arrays of more than 4 times or of shapes other than (2,), (3,), (2,2), (3,1), (1,3)"],
 }
 
 TEXT_GAP = """B1937+21    7-May-18   93600.00   58245.40000000000   71.020167
@@ -104,17 +104,21 @@ class TimeVec:
     """vector of SymTime (stand-in for a Time column)"""
 
     isscalar = False
-    ndim = 1
 
-    def __init__(self, items):
-        self.items = list(items)
+    def __init__(self, items, shape=None):
+        self.items = list(items)               # flat, C order
+        self.shp = tuple(shape) if shape is not None else (len(self.items),)
 
     def __len__(self):
-        return len(self.items)
+        return self.shp[0]
 
     @property
     def shape(self):
-        return (len(self.items),)
+        return self.shp
+
+    @property
+    def ndim(self):
+        return len(self.shp)
 
     def _cmpv(self, o, op):
         # elementwise comparison with a scalar SymTime (as `a <= times` / `times <= b` on a Time array): object array of SBool
@@ -123,7 +127,7 @@ class TimeVec:
         r = np.empty(len(self.items), dtype=object)
         for k, t in enumerate(self.items):
             r[k] = op(t.sec, o.sec)
-        return r
+        return r.reshape(self.shp)
 
     def min(self, axis=None, **k):
         from pbsym.stubs import sym_min
@@ -156,7 +160,10 @@ class TimeVec:
             return self.items[int(i)]
         if isinstance(i, np.ndarray) and i.ndim == 0:
             return self.items[int(i)]
-        return TimeVec([self.items[int(k)] for k in np.atleast_1d(i)])
+        if self.ndim != 1:
+            raise NotImplementedError("indexing a multi-dimensional time vector")
+        i = np.asarray(i)
+        return TimeVec([self.items[int(k)] for k in np.atleast_1d(i).ravel()], shape=np.atleast_1d(i).shape)
 
     def _q(self, q):
         v = q.to_value(u.s)
@@ -167,17 +174,17 @@ class TimeVec:
 
     def __sub__(self, q):
         if isinstance(q, TimeVec):
-            if len(q) != len(self):
+            if q.shp != self.shp:
                 raise ValueError("shape mismatch")
             r = np.empty(len(self.items), dtype=object)
             for k, (x, y) in enumerate(zip(self.items, q.items)):
                 r[k] = x.sec - y.sec
-            return u.Quantity(r, u.s, dtype=object)
+            return u.Quantity(r.reshape(self.shp), u.s, dtype=object)
         if isinstance(q, SymTime):
             r = np.empty(len(self.items), dtype=object)
             for k, x in enumerate(self.items):
                 r[k] = x.sec - q.sec
-            return u.Quantity(r, u.s, dtype=object)
+            return u.Quantity(r.reshape(self.shp), u.s, dtype=object)
         return TimeVec([SymTime(t.sec - d) for t, d in zip(self.items, self._q(q))])
 
     @property
@@ -185,7 +192,7 @@ class TimeVec:
         a = np.empty(len(self.items), dtype=object)
         for k, t in enumerate(self.items):
             a[k] = t.sec / 86400
-        return a
+        return a.reshape(self.shp)
 
 
 def _mjd(self):
@@ -507,11 +514,12 @@ class EvaluateVec(Evaluate):
     witnesses = 0
     max_paths = 4000
 
-    def __init__(self, which, what, n=2):
+    def __init__(self, which, what, n=2, shape=None):
         self.which, self.what, self.n = which, what, n
-        self.name = f"evalvec{n}-{which}-{what}"
-        self.bounds = {"polyco_text": which, "method": what, "times": f"array of {n} symbolic times, any order, each from 2 h before the "
-                       "first span to 2 h after the last"}
+        self.shape = tuple(shape) if shape else (n,)
+        self.name = f"evalvec{n}-{which}-{what}" + ("-" + "x".join(map(str, self.shape)) if shape else "")
+        self.bounds = {"polyco_text": which, "method": what, "times": f"array of shape {self.shape} of {n} symbolic times, any order, each from "
+                       "2 h before the first span to 2 h after the last"}
 
     def patches(self):
         from pbsym.stubs import sym_int
@@ -535,11 +543,11 @@ class EvaluateVec(Evaluate):
         if a["sym"]:
             me = StandIn({"tmid": TimeVec([SymTime(K.realval(s)) for s in a["secs"]]), "span": pp["span"], "rphase": np.asarray(pp["rphase"]),
                           "poly": list(pp["poly"])})
-            tt = TimeVec([SymTime(t) for t in a["ts"]])
+            tt = TimeVec([SymTime(t) for t in a["ts"]], shape=self.shape)
             cls = PR.PhasePredictor
         else:
             me = pp
-            tt = EPOCH + np.array([float(t) for t in a["ts"]]) * u.s
+            tt = EPOCH + np.array([float(t) for t in a["ts"]]).reshape(self.shape) * u.s
             cls = None
         a["me"], a["tt"] = me, tt
         if self.what == "call":
@@ -551,7 +559,7 @@ class EvaluateVec(Evaluate):
         if S.symbolic:
             ts = [rterm(t) for t in a["ts"]]
         else:
-            ts = [RV(sec_of(a["tt"][k])) for k in range(n)]
+            ts = [RV(sec_of(a["tt"].ravel()[k])) for k in range(n)]
         ents, secs = a["ents"], a["secs_txt"]
         ms = RV(Fraction(1, 1000))
         half = [RV(Fraction(30 * e["span"])) for e in ents]
@@ -597,14 +605,14 @@ class EvaluateVec(Evaluate):
             return [(f"{label}[{k}]", z3.And(all_inside, z3.Not(z3.Or(alts))))]
 
         if self.what == "call":
-            if not isinstance(out, P.Phase) or out.shape != (n,):
+            if not isinstance(out, P.Phase) or out.shape != self.shape:
                 return checks + [("returns-Phase-of-the-times-shape", z3.BoolVal(True))]
             for k, (ri, rf) in enumerate(parts(S, out)):
                 checks += per_element("tempo-formula", k, z3.simplify(ri + rf), 0, tolp)
         else:
             for m, q in enumerate(out):
                 v = np.atleast_1d(np.asarray(q.to_value(u.cycle / u.s ** (m + 1)), dtype=object)).ravel()
-                if len(v) != n:
+                if len(v) != n or np.shape(q) != self.shape:
                     checks.append((f"derivative-{m + 1}-has-the-times-shape", z3.BoolVal(True)))
                     continue
                 tol = RV(Fraction(1, 10**9)) * (RV(700) if m == 0 else RV(Fraction(1, 10**6)))
@@ -629,9 +637,14 @@ def units(tier):
     # three times: the first and last can share an entry while the middle one lies in another
     us.append(EvaluateVec("odd", "call", 3))
     us.append(EvaluateVec("gap", "f0", 3))
+    # a 2-D array of times (2 x 2; thorough also 3 x 1 and 1 x 3)
+    us.append(EvaluateVec("odd", "call", 4, shape=(2, 2)))
     if tier != "quick":
         us.append(EvaluateVec("gap", "call", 3))
         us.append(EvaluateVec("odd", "f0", 3))
+        us.append(EvaluateVec("gap", "f0", 4, shape=(2, 2)))
+        us.append(EvaluateVec("gap", "call", 3, shape=(3, 1)))
+        us.append(EvaluateVec("odd", "f0", 3, shape=(1, 3)))
     from . import C08_parse
     us += C08_parse.units(tier)
     return us
